@@ -518,6 +518,60 @@ def auto_detect(R, P):
             "with AWS_DATE_FORMAT_AUTO_DETECT a path returns without the RFC 822 parser having been tried although the ISO 8601 parser did not succeed (%s): auto-detection and the explicit format disagree for such texts" % det)
 
 
+def parse_dispatch(R, P):
+    """FORMAT-TABLE/parse:dispatch: which parser an explicit format reaches.  NUM with the format parameter fixed to each
+    constant in turn, the two parsers' verdicts symbolic: ISO_8601 and ISO_8601_BASIC reach the ISO 8601 parser on every
+    path that gets past the argument checks and never the RFC 822 parser; RFC822 reaches the RFC 822 parser and never the
+    ISO one (auto-detection: parse:auto-detect-tries-both) - whether written as if-chains, a switch, or flags."""
+    f = P.fn("aws_date_time_init_from_str_cursor")
+    if not R.require(f is not None and len(f.params) >= 3, "parser dispatch not found"):
+        return
+    from sa.awslib import AwsHooks
+    fmtp = [p_["n"] for p_ in f.params if "aws_date_format" in (f.unit.types[p_["t"]] or {}).get("s", "")]
+    if not R.require(len(fmtp) == 1, "parse dispatch: the format parameter not found"):
+        return
+    want = {"AWS_DATE_FORMAT_ISO_8601": ("iso",), "AWS_DATE_FORMAT_ISO_8601_BASIC": ("iso",), "AWS_DATE_FORMAT_RFC822": ("rfc",)}
+    bad, total = [], 0
+    for cname, parsers in sorted(want.items()):
+        cv = P.enums.get(cname)
+        if not R.require(cv is not None, "%s not found" % cname):
+            continue
+
+        class H(AwsHooks):
+            def entry(self, num, st, cv=cv):
+                st.env["v:" + fmtp[0]] = Poly.const(cv)
+                if hasattr(AwsHooks, "entry"):
+                    AwsHooks.entry(self, num, st)
+
+            def call(self, num, st, e, args):
+                c = e.get("callee")
+                if c in ("s_parse_iso_8601", "s_parse_rfc_822"):
+                    st.notes["iso" if "iso" in c else "rfc"] = True
+                    AwsHooks.call(self, num, st, e, args)
+                    return Poly.atom(num.fresh(st, "parsed", None, (0, 1)))
+                return AwsHooks.call(self, num, st, e, args)
+        num = Num(f, P, H(), max_paths=20000)
+        try:
+            sts = num.states_at({-1}).get(-1, [])
+        except Limit as ex:
+            R.broken(str(ex))
+            continue
+        reached = 0
+        for st in sts:
+            total += 1
+            called = {k for k in ("iso", "rfc") if st.notes.get(k)}
+            if called - set(parsers):
+                bad.append("%s also reaches the %s parser" % (cname, sorted(called - set(parsers))))
+            if called & set(parsers):
+                reached += 1
+        if not reached:
+            bad.append("%s never reaches the %s parser" % (cname, parsers[0]))
+        elif any(not ({k for k in ("iso", "rfc") if st.notes.get(k)}) and (lambda rv: rv is not None and rv.is_const() and rv.cval() == 0)(None) for st in sts):
+            pass
+    R.check(not bad and total >= 3, "FORMAT-TABLE", "parse:dispatch", "%s()" % f.name, "ISO formats go to the ISO 8601 parser only, RFC 822 to the RFC 822 parser only (%d states)" % total,
+            "an explicit format reaches the wrong parser: %s" % "; ".join(bad[:3]))
+
+
 def format_table(R, P):
     fm = {"RFC822_DATE_FORMAT_STR_MINUS_Z": "%a, %d %b %Y %H:%M:%S GMT", "RFC822_DATE_FORMAT_STR_WITH_Z": "%a, %d %b %Y %H:%M:%S %Z", "RFC822_SHORT_DATE_FORMAT_STR": "%a, %d %b %Y",
           "ISO_8601_LONG_DATE_FORMAT_STR": "%Y-%m-%dT%H:%M:%SZ", "ISO_8601_SHORT_DATE_FORMAT_STR": "%Y-%m-%d", "ISO_8601_LONG_BASIC_DATE_FORMAT_STR": "%Y%m%dT%H%M%SZ", "ISO_8601_SHORT_BASIC_DATE_FORMAT_STR": "%Y%m%d"}
@@ -584,26 +638,7 @@ def format_table(R, P):
                 got[key] = val if got.get(key, val) == val else ("several", got[key], val)
         want = {k: (v, "dt->" + view) for k, v in mp.items()}
         R.check(got == want, "FORMAT-TABLE", "%s:dispatch" % name, "%s()" % name, "each format constant uses its own pattern on dt->%s" % view, "%s dispatches %s" % (name, got))
-    g = P.fn("aws_date_time_init_from_str_cursor")
-    if R.require(g is not None, "parser dispatch not found"):
-        iso, rfc = g.calls("s_parse_iso_8601"), g.calls("s_parse_rfc_822")
-        ok = len(iso) == 1 and len(rfc) == 1
-        if ok:
-            import re
-            before, between, flag = set(), set(), False
-            for b in g.blocks.values():
-                if b.cond is None:
-                    continue
-                cn = g.d(b.cond)
-                ln = (cn.get("loc") or [0])[0] if cn else 0
-                txt = g.show(cn)
-                for nm in re.findall(r"AWS_DATE_FORMAT_[A-Z0-9_]+", txt):
-                    if "fmt" in txt:
-                        (before if ln < iso[0].line else between if ln < rfc[0].line else set()).add(nm)
-                if "successfully_parsed" in txt and iso[0].line < ln < rfc[0].line:
-                    flag = True
-            ok = before == {"AWS_DATE_FORMAT_ISO_8601", "AWS_DATE_FORMAT_ISO_8601_BASIC", "AWS_DATE_FORMAT_AUTO_DETECT"} and between == {"AWS_DATE_FORMAT_RFC822", "AWS_DATE_FORMAT_AUTO_DETECT"} and flag
-        R.check(ok, "FORMAT-TABLE", "parse:dispatch", "%s()" % g.name, "ISO formats and auto-detect go to the ISO 8601 parser; RFC 822, and auto-detect after an ISO failure, to the RFC 822 parser")
+    parse_dispatch(R, P)
 
 
 def date_only_accepted(R, P):
